@@ -135,6 +135,11 @@ def check(prog: Program, run: Run) -> None:
     common.run_as(run, "C01.R1", "C04.R6", lambda r: c01._pairing(prog, r))
     terminator_in_value(prog, run, "C04.R3")
     float32_range(prog, run, "C04.R3")
+    # values outside the applicable range of the compu method are rejected by the conversion
+    # itself (the gate in front of it in DataObjectProperty asks the same question, and DtcDop
+    # has no gate)
+    from . import compu
+    compu.conversion_guards(prog, run, "C04.R3", dirs=("phys",))
     # a misaligned emplace_bytes call is reported as RuntimeError: a foreign exception
     common.run_as(run, "C02.R3", "C04.R1", lambda r: c02._emplace_alignment(prog, r))
     _required_unknown(prog, run)
